@@ -84,7 +84,14 @@ class Env:
                 rec = env.ofxhome.get((q.get("lookup") or [""])[0])
                 if rec is None:
                     raise urllib.error.URLError("no such institution")
-                fields = "".join("<%s>%s</%s>" % (f, saxutils.escape(getattr(rec, f)), f) for f in ("fid", "org", "url", "brokerid")
+                # OFX Home is known not to escape '&' in <fid>: a FID holding a bare '&' is served raw (the other elements
+                # are escaped as XML requires)
+                def wire(f):
+                    v = getattr(rec, f)
+                    if f == "fid" and ("& " in v or v.endswith("&")) and "<" not in v:
+                        return v
+                    return saxutils.escape(v)
+                fields = "".join("<%s>%s</%s>" % (f, wire(f), f) for f in ("fid", "org", "url", "brokerid")
                                  if getattr(rec, f, None) is not None)
                 xml = ('<institution id="%s"><name>Fake &amp; Sons</name>%s<ofxfail>0</ofxfail><sslfail>0</sslfail>'
                        '<lastofxvalidation>2019-04-29 23:08:45</lastofxvalidation><lastsslvalidation>2019-04-29 23:08:44</lastsslvalidation>'
